@@ -346,3 +346,120 @@ Theorem C01_disabled_block_list_not_in_force :
   exists f, In f ls /\ fl_url f <> u /\ fl_on f = true /\ In r (fl_rules f).
 Proof. exact switched_off_not_in_force. Qed.
 Print Assumptions C01_disabled_block_list_not_in_force.
+
+(** * The queue of pending engine rebuilds (round 4)
+
+    "an enabled blocking rule": enabled by the LATEST accepted configuration
+    change.  The web handlers (set_rules, set_url, add_url, remove_url,
+    filtering/config) hand a snapshot of the configuration to the updates
+    loop through a one-slot channel (drain, then send); Model/FilterQueue.v
+    has the channel, the loop's two halves (take a task / install its
+    engines), the synchronous rebuild and the handlers as the code is now. *)
+From AGH Require Import Model.FilterQueue Proofs.FilterQueue.
+
+(** Generic in the configuration and the snapshot: any interleaving of
+    changes, EnableFilters(true) calls, loop steps and synchronous rebuilds
+    in which the last change is followed by its trigger; when the loop has
+    served the queue the engines are built from the configuration in force,
+    nothing is queued and the loop is idle. *)
+Theorem C01_rebuild_queue_follows_last_change :
+  forall (conf change snap : Type) (apply : conf -> change -> conf) (take : conf -> snap)
+         (s0 : qstate conf snap) (h : list (op change)),
+  fresh take s0 -> settled h = true ->
+  let s := run apply take enq_drain_send s0 h in
+  q_engine (quiesce apply take s) = take (q_conf s) /\
+  q_chan (quiesce apply take s) = [] /\ q_busy (quiesce apply take s) = None.
+Proof. exact engine_follows_last_change. Qed.
+Print Assumptions C01_rebuild_queue_follows_last_change.
+
+(** From any state, however stale, one trigger after the last change is enough. *)
+Theorem C01_one_trigger_heals :
+  forall (conf change snap : Type) (apply : conf -> change -> conf) (take : conf -> snap)
+         (s0 : qstate conf snap) (h : list (op change)),
+  dirty_after true h = false ->
+  let s := run apply take enq_drain_send s0 h in
+  q_engine (quiesce apply take s) = take (q_conf s).
+Proof. exact one_trigger_heals. Qed.
+Print Assumptions C01_one_trigger_heals.
+
+Example C01_rebuild_queue_premises_satisfiable :
+  fresh ex_take ex_s0 /\ settled ex_hist = true /\
+  let s := run ex_apply ex_take enq_drain_send ex_s0 ex_hist in
+  q_chan s = [3%nat] /\ q_engine s = 1%nat /\ q_engine (quiesce ex_apply ex_take s) = 3%nat.
+Proof. exact (conj (proj1 ex_premises) (conj (proj2 ex_premises) ex_phases)). Qed.
+
+(** Whole handler calls, loop steps, synchronous rebuilds and idle periods
+    in any order on a started server: at most one task is pending and no
+    handler blocks on the channel. *)
+Theorem C01_at_most_one_pending_rebuild :
+  forall st hs,
+  let s := hrun (pinit st) hs in (length (q_chan s) <= 1)%nat /\ q_stuck s = false.
+Proof. exact at_most_one_pending. Qed.
+Print Assumptions C01_at_most_one_pending_rebuild.
+
+(** Once the queue is served every query is answered as by a server whose
+    engines were built from the latest configuration. *)
+Theorem C01_engine_follows_last_change :
+  forall sb par ss srt st hs c up q,
+  let s := hrun (pinit st) hs in
+  ask_q sb par ss srt (pquiesce s) c up q = PipelineLists.ask sb par ss srt (q_conf s) c up q.
+Proof. exact served_queue_answers_with_last_change. Qed.
+Print Assumptions C01_engine_follows_last_change.
+
+Theorem C01_engine_follows_last_change_interleaved :
+  forall sb par ss srt st h c up q,
+  settled h = true ->
+  let s := prun (pinit st) h in
+  ask_q sb par ss srt (pquiesce s) c up q = PipelineLists.ask sb par ss srt (q_conf s) c up q.
+Proof. exact served_queue_answers_with_last_change_interleaved. Qed.
+Print Assumptions C01_engine_follows_last_change_interleaved.
+
+(** The main clause over the queue: what the rules of the latest
+    configuration block is answered locally, nothing goes upstream. *)
+Theorem C01_blocked_by_last_change_is_local :
+  forall sb par ss srt st hs c up q,
+  let s := hrun (pinit st) hs in
+  blocked_by_spec (match_request (allow_rules (q_conf s))) (match_request (block_rules (q_conf s))) srt c q ->
+  let o := ask_q sb par ss srt (pquiesce s) c up q in
+  o_calls o = [] /\
+  r_filtered (o_result o) = true /\ rule_reason (r_reason (o_result o)) /\
+  o_resp o = Some (synthetic c (q_name q) (q_qtype q) (ips_from_rules (o_result o))) /\
+  o_qname o = q_name q.
+Proof. exact blocked_by_last_change_is_local. Qed.
+Print Assumptions C01_blocked_by_last_change_is_local.
+
+(** The custom rules of the last set_rules call head the block engine. *)
+Theorem C01_last_custom_rules_in_force :
+  forall st hs rs,
+  let s := pquiesce (handle (hrun (pinit st) hs) (QRules rs)) in
+  snd (q_engine s) = rs ++ active (ls_block (q_conf s)) /\ ls_user (q_conf s) = rs.
+Proof. exact last_custom_rules_in_force. Qed.
+Print Assumptions C01_last_custom_rules_in_force.
+
+Theorem C01_enabled_list_in_force_after_queue :
+  forall st hs f,
+  let s0 := hrun (pinit st) hs in
+  NoDup (map fl_url (ls_block (q_conf s0))) -> In f (ls_block (q_conf s0)) ->
+  let s := pquiesce (handle s0 (QSet false (fl_url f) true)) in
+  incl (fl_rules f) (snd (q_engine s)).
+Proof. exact enabled_list_in_force_after_queue. Qed.
+Print Assumptions C01_enabled_list_in_force_after_queue.
+
+(** The variant with a non-blocking send and no drain (seeded change C01-G)
+    is refuted: two set_rules calls while the loop is away; the name the
+    second call blocks is blocked by the rules of the configuration and not
+    by the engines, however long the loop is left alone afterwards.  The
+    code as it is blocks it on the same history. *)
+Theorem C01_nonblocking_send_refuted :
+  settled exq_ops = true /\
+  let s := run apply_q ptake enq_nonblocking (pinit exq_st) exq_ops in
+  let e := q_engine (pquiesce s) in
+  snd (match_request (block_rules (q_conf s)) exl_rq) = true /\
+  snd (match_request (snd e) exl_rq) = false.
+Proof. exact nonblocking_send_refuted. Qed.
+Print Assumptions C01_nonblocking_send_refuted.
+
+Example C01_drain_then_send_on_the_same_history :
+  let s := prun (pinit exq_st) exq_ops in
+  snd (match_request (snd (q_engine (pquiesce s))) exl_rq) = true.
+Proof. exact drain_then_send_on_the_same_history. Qed.
